@@ -6,9 +6,9 @@ package main
 
 import (
 	"bufio"
-	"os"
 	"fmt"
 	"io"
+	"os"
 	"os/exec"
 	"strconv"
 	"strings"
